@@ -252,7 +252,14 @@ type Env struct {
 
 func NewEnv(seed uint64) *Env { return &Env{Slots: map[uint64]*macaroon.Macaroon{}, seed: seed} }
 
+// KeyEmpty is the zero-length key: what Add seals into a hand-built Caveat3P{Location, Ticket} (no discharge key
+// was ever drawn for it) and a key every attacker knows. In the model it is just another key atom.
+const KeyEmpty = 30
+
 func (e *Env) Key(k uint64) []byte {
+	if k == KeyEmpty {
+		return []byte{}
+	}
 	var b [16]byte
 	binary.BigEndian.PutUint64(b[:8], e.seed)
 	binary.BigEndian.PutUint64(b[8:], k)
